@@ -39,6 +39,16 @@ func (e *RunEnv) pick(q, t int) int {
 	return q
 }
 
+// depth is pick plus VERIF_DEPTH_PLUS (exploratory runs beyond the registered tiers; never set by the
+// registered commands).
+func (e *RunEnv) depth(q, t int) int {
+	d := e.pick(q, t)
+	if n, err := strconv.Atoi(os.Getenv("VERIF_DEPTH_PLUS")); err == nil {
+		d += n
+	}
+	return d
+}
+
 type CheckResult struct {
 	Level       string
 	Violations  []Violation
